@@ -108,3 +108,15 @@ claim('C13',
        'Fresh blocks allocated by the call itself, caller-owned arguments, and the node qlisttbl_removeobj has already unlinked are treated as private (reviewed rules in gen_lockast.py). size()/datasize() read the count without the lock and are outside the operation mix.',
   technique='source-to-Coq translation of lock/access structure + verified path checker + generic Rocq linearizability theorem; TSan/multiset stress as failing-schedule search',
   design='5.13')
+claim('C10',
+  text='Machine-checked refinement (Coq 8.16, closed under the global context): for every operation history, element size >= 1, option word (exact/linear/doubling growth), '
+       'initial capacity and int index, with fewer than 2^31 elements, the model of qvector.c (block of byte cells with undefined cells for fresh memory, the memcpy/memmove ranges '
+       'as written, int/size_t index arithmetic) never leaves the block or overlaps a memcpy, returns exactly the observations of a list of fixed-size elements '
+       '(insert/nth/remove/rev/concat/firstn), keeps the first num elements equal to that list, never returns an undefined byte, leaves the state untouched on refusal, '
+       'refuses every out-of-range index, preserves surviving elements on resize to any capacity and behaves like a fresh vector after resize 0. '
+       'Three defects of the pinned code were repaired first (resize(0) zeroed objsize; memcpy on overlapping ranges in remove_at; int byte count in remove_at). '
+       'Model tied to the code by lockstep execution: bounded-exhaustive (n<=6, index in [-n-2,n+2]) x ops x policies x objsize {1,3,8} x capacity 0..3, all short op sequences, random histories with objsize up to 64.',
+  note='Trusted: Coq kernel, extraction (ExtrOcamlBasic only), gcc, harness/h_vec.c (with --wrap=memcpy overlap detection), ocaml/d_vec.ml. Allocation failure not modelled (C15); '
+       'size_t products assumed not to wrap (max*objsize representable). Model tied to code by differential execution, not by a C semantics.',
+  technique='Rocq refinement proof (representation relation block = cells(list) ++ junk, loop lemmas for the shift and the in-place reversal, lia with div/mod for the int/size_t conversions); extracted-model and extracted-spec correspondence',
+  design='5.10')
